@@ -5,7 +5,11 @@
 // every seed (every regular file below the extractor package's testdata/ plus 14 minimal documents) and
 // every production placement of the table in paths.go, EVERY mutant at edit distance <= 1 under operator
 // set v1 (mutate.go) is handed to Extract through a complete ScanInput; a panic, a hang or a memory abort
-// is a violation. Second half (containment): one representative mutant per (extractor, error class) is
+// is a violation. SECONDARY inputs are part of the space: files an extractor opens through input.FS besides the
+// one it is invoked on (etc/os-release and usr/lib/os-release for the OS family, chrome
+// _locales/<locale>/message.json, go.sum, requirements -r includes, the local parent pom.xml, containerd's
+// snapshotter metadata.db and CRI status file) are mutated with the same operators while the primary file is
+// kept healthy (placements with MutPath in paths.go). Second half (containment): one representative mutant per (extractor, error class) is
 // scanned with scalibr.Scanner.Scan next to a healthy file of another extractor.
 //
 // Process architecture: the parent enumerates units (extractor x seed x placement, smallest seed first)
@@ -464,7 +468,13 @@ func (m *manager) run(u unit) (out unitOutcome, err error) {
 			c.violation(u, u.Ex+":hang", fmt.Sprintf("%s made no progress for %v", u.Ex, time.Duration(m.wd.Load())), seq)
 		} else {
 			kind, detail := classifyDeath(p.stderr.String(), ws)
-			c.violation(u, u.Ex+":"+kind, fmt.Sprintf("worker process died (%s) %s", p.cmd.ProcessState, strings.SplitN(detail, "\n", 2)[0]), seq, detail)
+			owner := u.Ex
+			if strings.HasPrefix(kind, "fatal:") && !strings.HasPrefix(kind, "fatal:dep:") {
+				// same attribution rule as for recovered panics (shared helper packages own their sites)
+				k := causeKey(u.Ex, "fatal:", firstGoroutine(p.stderr.String()))
+				owner, kind = k[:strings.Index(k, ":")], k[strings.Index(k, ":")+1:]
+			}
+			c.violation(u, owner+":"+kind, fmt.Sprintf("worker process died (%s) %s", p.cmd.ProcessState, strings.SplitN(detail, "\n", 2)[0]), seq, detail)
 		}
 		out.incidents++
 		if time.Since(time.Unix(0, m.last.Load())) > 10*time.Second {
@@ -613,6 +623,54 @@ func seedsFor(exName string) ([]seedInfo, []string) {
 	return out, rels
 }
 
+// secondarySeeds lists the seeds of a secondary-input set: inline documents, matching fixtures, minimal documents.
+func secondarySeeds(set string) []seedInfo {
+	def := secondarySets[set]
+	var out []seedInfo
+	seen := map[uint64]bool{}
+	add := func(id string, data []byte) {
+		h := fnv64(data)
+		if !seen[h] {
+			seen[h] = true
+			out = append(out, seedInfo{ID: id, Size: len(data)})
+		}
+	}
+	for _, n := range def.Inline {
+		add("i:"+n, []byte(inline[n]))
+	}
+	if !def.NoMinimal {
+		for _, d := range minimalDocs {
+			add("m:"+d.Name, []byte(d.Data))
+		}
+	}
+	if def.FixtureDir != "" {
+		var files []string
+		_ = filepath.WalkDir(filepath.Join(ev.RepoDir(), def.FixtureDir), func(p string, d fs.DirEntry, err error) error {
+			if err == nil && d.Type().IsRegular() {
+				files = append(files, p)
+			}
+			return nil
+		})
+		sort.Strings(files)
+		for _, f := range files {
+			ok := len(def.Match) == 0
+			for _, m := range def.Match {
+				ok = ok || strings.HasSuffix(filepath.ToSlash(f), m)
+			}
+			if !ok {
+				continue
+			}
+			b, err := os.ReadFile(f)
+			if err != nil {
+				continue
+			}
+			rel, _ := filepath.Rel(ev.RepoDir(), f)
+			add("f:"+filepath.ToSlash(rel), b)
+		}
+	}
+	return out
+}
+
 func main() {
 	if len(os.Args) >= 3 && os.Args[1] == "-worker" {
 		workerMain(os.Args[2])
@@ -659,6 +717,7 @@ func main() {
 	}
 	var units []workUnit
 	nSeeds := 0
+	secondary := map[string][]string{} // extractor -> secondary input paths explored
 	for _, n := range names {
 		seeds, rels := seedsFor(n)
 		sp, ok := specs[n]
@@ -685,10 +744,18 @@ func main() {
 			}
 			specs[n] = sp
 		}
-		c.perEx[n] = &exStat{Seeds: len(seeds)}
-		nSeeds += len(seeds)
-		for _, s := range seeds {
-			for ci := range sp.Cands {
+		c.perEx[n] = &exStat{}
+		for ci, cd := range sp.Cands {
+			ss := seeds
+			if cd.Seeds != "" {
+				ss = secondarySeeds(cd.Seeds)
+			}
+			if cd.mutPath() != cd.Path {
+				secondary[n] = append(secondary[n], cd.mutPath())
+			}
+			c.perEx[n].Seeds += len(ss)
+			nSeeds += len(ss)
+			for _, s := range ss {
 				units = append(units, workUnit{unit: unit{Kind: "extract", Ex: n, Seed: s.ID, Cand: ci, Tier: tier}, size: s.Size})
 				c.perEx[n].Units++
 			}
@@ -713,6 +780,7 @@ func main() {
 	r.Set("extractors", len(names))
 	r.Set("seeds", nSeeds)
 	r.Set("units", len(units))
+	r.Set("secondary_inputs", secondary)
 
 	// ---- phase 1: every mutant through Extract -----------------------------------------------------
 	budget := ev.Pick(r, 185*time.Second, 38*time.Minute)
@@ -870,18 +938,18 @@ func main() {
 		per[n] = map[string]any{"seeds": st.Seeds, "units": st.Units, "extracted": st.Evals, "exercised": st.Exerc, "max_alloc_bytes_one_call": st.MaxAlloc, "slowest_call_ms": st.SlowMs}
 	}
 	r.Set("per_extractor", per)
-	r.Set("operator_set", "v1: identity; truncate; delete/duplicate/swap-adjacent line; replace byte by one of 16 structural tokens; (thorough) delete/duplicate byte; (thorough, binary seeds) set byte of first 1 KiB to 00/ff")
+	r.Set("operator_set", "v1: identity; truncate; delete/duplicate/swap-adjacent line; replace byte by one of 16 structural tokens; delete/duplicate byte; replace value token / bracket group by null; (thorough, binary seeds) set byte of first 1 KiB to 00/ff")
 	r.Assume("os/rpm is instantiated with Config.Timeout = 8 s (quick) / 30 s (thorough) instead of its 5 min default: corrupt BerkeleyDB mutants run into that timeout by design; all other extractors are el.All defaults")
 	r.Assume("java/pomxmlnet is excluded (needs a registry); arbitrary byte strings are NOT covered: only edit distance <= 1 from a fixture or minimal document under operator set v1")
 	b := boundsFor(tier)
-	rule := fmt.Sprintf("for each of %d offline built-in extractors x each seed (every testdata fixture + %d minimal documents, identical contents merged) x each production placement (paths.go, validated against FileRequired): "+
+	rule := fmt.Sprintf("for each of %d offline built-in extractors x each placement (paths.go, validated against FileRequired; a placement is either the file handed to Extract or a SECONDARY file the extractor opens through input.FS — os-release, chrome message.json, go.sum, -r includes, local parent pom.xml, containerd metadata.db/status — next to a healthy primary file) x each seed of that placement (every testdata fixture of the extractor resp. of the secondary format, inline minimal valid documents, %d minimal documents incl. empty/whitespace/null/lone quote/lone key; identical contents merged): "+
 		"every mutant of operator set v1 — identity; truncate at every offset (seeds <= %d B; larger: every 512-byte boundary); delete / duplicate / swap-adjacent line i (seeds <= %d B); "+
-		"replace byte i by each of 16 structural tokens at every offset (seeds <= %d B) or at line starts (seeds <= %d B); delete / duplicate byte i (seeds <= %d B); set each byte of the first 1 KiB to 00/ff (binary seeds, thorough=%v) — "+
-		"is handed to Extract with a complete ScanInput; Extract must return (no panic, no process death, no stack overflow, no RLIMIT_AS 8 GiB abort, answer within the %v watchdog; os/rpm runs with its own Timeout knob set to 8 s quick / 30 s thorough). "+
-		"evaluations = Extract calls + containment scans; distinct_nontrivial = distinct (extractor, placement, mutant bytes) whose Extract returned an error or >= 1 package (i.e. got past the format sniffing or was rejected with a diagnosis; empty error-free results are not counted). "+
+		"replace byte i by each of 16 structural tokens at every offset (seeds <= %d B) or at line starts (seeds <= %d B); delete / duplicate byte i (seeds <= %d B); replace each value token or balanced bracket group by null (text seeds <= %d B); set each byte of the first 1 KiB to 00/ff (binary seeds, thorough=%v) — "+
+		"is placed and Extract is called with a complete ScanInput; Extract must return (no panic, no process death, no stack overflow, no RLIMIT_AS 8 GiB abort, answer within the %v watchdog, which covers the parsing of secondary files too; os/rpm runs with its own Timeout knob set to 8 s quick / 30 s thorough). "+
+		"evaluations = Extract calls + containment scans; distinct_nontrivial = distinct (extractor, placement, mutant bytes) whose Extract returned an error or >= 1 package (empty error-free results are not counted). "+
 		"Containment: for each extractor and each error class (first 48 chars of the error text, paths/quoted text/digits removed; first %d classes per extractor in enumeration order) the first mutant of that class is scanned by scalibr.Scanner.Scan next to a healthy requirements.txt (dpkg status for python/requirements): "+
 		"the scan completes, the healthy extractor's packages and status equal those of the scan without the bad file, and the failing extractor's status is Failed or PartiallySucceeded.",
-		len(names), len(minimalDocs), b.truncAll, b.lineOps, b.sigmaAll, b.sigmaLine, b.byteOps, b.binFF, c.watchdog, maxClassesPerExtractor)
+		len(names), len(minimalDocs), b.truncAll, b.lineOps, b.sigmaAll, b.sigmaLine, b.byteOps, b.nullify, b.binFF, c.watchdog, maxClassesPerExtractor)
 	r.Finish(rule, true)
 }
 
